@@ -354,6 +354,27 @@ distinct_nontrivial counts distinct (backend, outer, inner, operand position) co
     let depth = ctx.tier.pick(4, 6);
     let n = ctx.tier.pick(120_000, 2_500_000);
     ctx.run_proptest("random-trees", n, &|| case_strategy(depth), &check);
+    // long chains of one operator (left-deep, as repeated builder calls produce them) with one right operand that is itself a group of
+    // the same operator: every length up to the bound, every associative / left-associative arithmetic and logical operator
+    let max_chain: u64 = ctx.tier.pick(80, 300);
+    const CHAIN_OPS: [Op; 6] = [Op::And, Op::Or, Op::Add, Op::Sub, Op::Mul, Op::Mod];
+    ctx.run_indexed(
+        "long-chains",
+        (max_chain - 1) * CHAIN_OPS.len() as u64 * 3,
+        &|i| {
+            let d = DIALECTS[(i % 3) as usize];
+            let op = CHAIN_OPS[((i / 3) % CHAIN_OPS.len() as u64) as usize];
+            let len = 2 + (i / (3 * CHAIN_OPS.len() as u64)) as usize;
+            let nested_at = 1 + (len * 7 + 3) % (len - 1);
+            let mut e = E::Col(0);
+            for k in 1..len {
+                let rhs = if k == nested_at { E::Bin(Box::new(E::Col(1)), op, Box::new(E::Col(2))) } else { E::Col((k % 4) as u8) };
+                e = E::Bin(Box::new(e), op, Box::new(rhs));
+            }
+            Case { dialect: d, e }
+        },
+        &check,
+    );
 }
 
 pub fn replay(_part: &str, case: &J, obs: &mut Obs) -> R {
